@@ -614,8 +614,11 @@ func (in *Interp) binop(op token.Token, x, y Value, t types.Type, xt types.Type)
 			}
 			return SymV{em.emit(Op{kind: "shr", a: id(x), k: k})}
 		}
+		// a left shift that pushes bits out of the word is bit slicing the source wrote on purpose (`w1<<13 | w0>>51`), not
+		// an arithmetic overflow: `low`, not `wrap`.  Where the shifted-out bits mattered (a carry chain), the value
+		// congruence of the function's specification no longer holds.
 		t := em.emit(Op{kind: "shl", a: id(x), k: k})
-		return SymV{em.emit(Op{kind: "wrap", a: t, k: n})}
+		return SymV{em.emit(Op{kind: "low", a: t, k: n})}
 	case token.AND, token.AND_NOT:
 		if op == token.AND_NOT {
 			if yconc {
@@ -711,6 +714,20 @@ func (in *Interp) binop(op token.Token, x, y Value, t types.Type, xt types.Type)
 			return Conc{big.NewInt(0)}
 		}
 		fail("comparison %s on a symbolic (input-dependent) value in %s", op, in.curFn)
+	}
+	if (op == token.REM || op == token.QUO) && yconc && !signed && yc.v.Sign() > 0 && new(big.Int).And(yc.v, new(big.Int).Sub(yc.v, big.NewInt(1))).Sign() == 0 {
+		// unsigned x % 2^k / x / 2^k: a mask / a shift
+		k := yc.v.BitLen() - 1
+		if k == 0 {
+			if op == token.REM {
+				return Conc{big.NewInt(0)}
+			}
+			return x
+		}
+		if op == token.REM {
+			return SymV{em.emit(Op{kind: "low", a: id(x), k: k})}
+		}
+		return SymV{em.emit(Op{kind: "shr", a: id(x), k: k})}
 	}
 	fail("unsupported symbolic binop %s", op)
 	return nil
